@@ -521,6 +521,25 @@ func newVFixture(in VIn, scheme signature.SigningScheme, vc vcase) *vfixture {
 			} else {
 				p.caps = []pf.Capability{rv, pf.CapabilitySignatureGenerator, ti}
 			}
+		case "attrNonCritical", "attrNonString", "attrBlank", "minVerInvalid", "minVerBlank", "minVerNonCritical":
+			// malformed plugin attributes in the signature itself; the plugin is installed and would approve
+			p.caps = []pf.Capability{ti, rv}
+			a := pluginAttrs(pluginName, "1.0.0")
+			switch in.Plugin {
+			case "attrNonCritical":
+				a[0].Critical = false
+			case "attrNonString":
+				a[0].Value = 42
+			case "attrBlank":
+				a[0].Value = "   "
+			case "minVerInvalid":
+				a[1].Value = "1.0"
+			case "minVerBlank":
+				a[1].Value = " "
+			case "minVerNonCritical":
+				a[1].Critical = false
+			}
+			fx.extAttrs = a
 		case "nilManager":
 			fx.manager = nil
 		case "metaError":
@@ -611,7 +630,7 @@ func (fx *vfixture) envelope(vc vcase) []byte {
 	}
 	attrKey := ""
 	for _, a := range fx.extAttrs {
-		attrKey += fmt.Sprint(a.Key) + ";"
+		attrKey += fmt.Sprintf("%v=%v/%v;", a.Key, a.Value, a.Critical)
 	}
 	payload := fx.payload()
 	ph := sha256.Sum256(payload)
